@@ -591,26 +591,35 @@ def codec_parameters_are_used(model: Model, run: Run) -> None:
                 ok = True
             # the choice is delegated: header handed to a module helper (not the validating helper) that reads header.tag
             for c in ast.walk(fi.node):
-                if isinstance(c, ast.Call) and isinstance(c.func, ast.Name) and depth < 3 and any(isinstance(a_, ast.Name) and a_.id == h_ for a_ in list(c.args) + [k.value for k in c.keywords]):
-                    q = model.resolve_name(fi.module, c.func.id)
-                    g = model.functions.get(q) if q else None
+                if isinstance(c, ast.Call) and depth < 4 and any(isinstance(a_, ast.Name) and a_.id == h_ for a_ in list(c.args) + [k.value for k in c.keywords]):
+                    g = None
+                    if isinstance(c.func, ast.Name):
+                        q = model.resolve_name(fi.module, c.func.id)
+                        g = model.functions.get(q) if q else None
+                    elif isinstance(c.func, ast.Attribute) and isinstance(c.func.value, ast.Name) and c.func.value.id == "self" and fi.cls:
+                        g = model.find_method(fi.cls, c.func.attr)
+                    elif isinstance(c.func, ast.Attribute) and isinstance(c.func.value, ast.Name):
+                        q = model.resolve_name(fi.module, norm(c.func))
+                        g = model.functions.get(q) if q else None
                     if g is not None and g is not an.validate and not isinstance(g.node, ast.Lambda) and uses_header_tag(g, depth + 1):
                         ok = True
         memo[fi.qualname] = ok
         return ok
+    # the obligation is per read_* method: somewhere between the method and the validating helper (the method itself, a private
+    # method it hands the header to, the module helper) `header.tag` is read
     seen = set()
-    for name, h in sorted(an.reader_helper.items()):
-        if h.qualname in seen:
+    for name, m_ in sorted(rd.methods.items()):
+        if not name.startswith("read_") or isinstance(m_.node, ast.Lambda) or m_.qualname in seen:
             continue
-        seen.add(h.qualname)
-        takes_header = any(x.annotation is not None and "ASN1Header" in norm(x.annotation) for x in h.node.args.posonlyargs + h.node.args.args + h.node.args.kwonlyargs)
+        seen.add(m_.qualname)
+        takes_header = any(x.annotation is not None and "ASN1Header" in norm(x.annotation) for x in m_.node.args.posonlyargs + m_.node.args.args + m_.node.args.kwonlyargs)
         if not takes_header:
             continue
-        ok = uses_header_tag(h)
-        run.ob("S13-header-tag-stands-in-for-the-default", ok, {"helper": h.name})
+        ok = uses_header_tag(m_)
+        run.ob("S13-header-tag-stands-in-for-the-default", ok, {"method": m_.name})
         if not ok:
-            run.fail(Finding("S13-header-tag-stands-in-for-the-default", h.qualname, f"{h.name}|header.tag", f"{h.name} takes a peeked header but never lets `header.tag` be the expected tag: reading a "
-                             "non-universally tagged value by its header alone is rejected although its sibling readers accept it", model.loc(h.module, h.node)))
+            run.fail(Finding("S13-header-tag-stands-in-for-the-default", m_.qualname, f"{m_.name}|header.tag", f"{m_.name} takes a peeked header but never lets `header.tag` be the expected tag: reading a "
+                             "non-universally tagged value by its header alone is rejected although its sibling readers accept it", model.loc(m_.module, m_.node)))
 
 
 def integer_contents_are_signed(model: Model, run: Run, rule: str = "S11-integer-contents-read-as-twos-complement") -> None:
